@@ -275,7 +275,52 @@ func rechunkProxy(target string, seed int64) (addr string, closeFn func()) {
 }
 
 // c17WS: concurrent writers on one WebSocket connection through a re-chunking proxy.
-func c17WS(ctx *Ctx, i int, rng *rand.Rand, lib string) {
+func c17WS(ctx *Ctx, i int, rng *rand.Rand, lib string) { c17WSx(ctx, i, rng, lib, lib) }
+
+// rawWSCodec is a WebSocket peer that fragments: every message goes out as several frames
+// (first frame + continuation frames), as any peer is allowed to (RFC 6455 5.4).
+type rawWSCodec struct {
+	conn  net.Conn
+	rng   *rand.Rand
+	pings bool
+}
+
+func (c *rawWSCodec) ReadMessage() (*jsonrpc2.Message, error) { select {} }
+func (c *rawWSCodec) RemoteAddr() string                     { return "raw" }
+func (c *rawWSCodec) Close() error                           { return c.conn.Close() }
+func (c *rawWSCodec) WriteMessage(m *jsonrpc2.Message) error {
+	b, err := json.Marshal(m)
+	if err != nil {
+		return err
+	}
+	b = append(b, '\n')
+	parts := 1 + c.rng.Intn(4)
+	if len(b) > 3000 {
+		parts += c.rng.Intn(6)
+	}
+	op := ws.OpText
+	for k := 0; k < parts; k++ {
+		n := len(b)
+		if k < parts-1 {
+			n = c.rng.Intn(len(b) + 1) // empty fragments are allowed too
+		}
+		f := ws.NewFrame(op, k == parts-1, append([]byte{}, b[:n]...))
+		if err := ws.WriteFrame(c.conn, ws.MaskFrameInPlace(f)); err != nil {
+			return err
+		}
+		b = b[n:]
+		op = ws.OpContinuation
+		if c.pings && k < parts-1 && c.rng.Intn(3) == 0 {
+			if err := ws.WriteFrame(c.conn, ws.MaskFrameInPlace(ws.NewPingFrame([]byte("hb")))); err != nil {
+				return err
+			}
+		}
+	}
+	return nil
+}
+
+// c17WSx: clientLib writes (gorilla, gobwas, or "raw"/"raw-pings": a fragmenting peer), serverLib reads.
+func c17WSx(ctx *Ctx, i int, rng *rand.Rand, clientLib, lib string) {
 	var mon []string
 	received := make(chan *jsonrpc2.Message, 4096)
 	var readErr error
@@ -308,16 +353,21 @@ func c17WS(ctx *Ctx, i int, rng *rand.Rand, lib string) {
 	defer cancel()
 	var codec jsonrpc2.Codec
 	var err error
-	if lib == "gorilla" {
+	switch clientLib {
+	case "gorilla":
 		codec, err = gorillaws.WebSocketDial(cctx, "ws://"+paddr)
-	} else {
+	case "gobwas":
 		codec, err = gobwasws.WebSocketDial(cctx, "ws://"+paddr)
+	default:
+		var conn net.Conn
+		conn, _, _, err = ws.Dial(cctx, "ws://"+paddr)
+		codec = &rawWSCodec{conn: conn, rng: rand.New(rand.NewSource(int64(i))), pings: clientLib == "raw-pings"}
 	}
 	if err != nil {
-		fatal("ws dial (%s): %v", lib, err)
+		fatal("ws dial (%s): %v", clientLib, err)
 	}
 	writers := 1
-	if lib == "gorilla" { // the codec the shipped binaries use: writers may be concurrent
+	if clientLib == "gorilla" { // the codec the shipped binaries use: writers may be concurrent
 		writers = 2 + rng.Intn(7)
 	}
 	per := 5 + rng.Intn(20)
@@ -395,7 +445,11 @@ loop:
 	if readErr != nil && n < expect {
 		re = readErr.Error()
 	}
-	ctx.Emit(Case{I: i, Kind: "ws-" + lib, Desc: map[string]interface{}{"writers": writers, "per_writer": per, "received": n, "reader_error": re}, Monitor: mon})
+	kind := "ws-" + lib
+	if clientLib != lib {
+		kind = "ws-" + clientLib + "-to-" + lib
+	}
+	ctx.Emit(Case{I: i, Kind: kind, Desc: map[string]interface{}{"writers": writers, "per_writer": per, "received": n, "reader_error": re}, Monitor: mon})
 }
 
 // EchoService is served over HTTP.
@@ -448,11 +502,17 @@ func runC17(ctx *Ctx) {
 			continue
 		}
 		rng := ctx.Sub(i)
-		switch c % 3 {
-		case 0:
+		switch c % 9 {
+		case 0, 6:
 			c17WS(ctx, i, rng, "gorilla")
 		case 1:
 			c17WS(ctx, i, rng, "gobwas")
+		case 3:
+			c17WSx(ctx, i, rng, "gorilla", "gobwas") // gorilla fragments what exceeds its write buffer
+		case 4:
+			c17WSx(ctx, i, rng, "raw-pings", "gobwas")
+		case 7:
+			c17WSx(ctx, i, rng, "raw-pings", "gorilla")
 		default:
 			c17HTTP(ctx, i, rng)
 		}
